@@ -58,41 +58,9 @@ def _write_if_changed(path, text):
 
 
 def regenerate(rep):
-    import cpp2lean as C
-    import struct_names
-    inc = core.ensure_version_h()
-    tmp = os.path.join(core.CACHE, "tr")
-    os.makedirs(tmp, exist_ok=True)
-    text, meta, errors, tr = C.generate(os.path.join(core.ROOT, "tr/c05_drv.cpp"), os.path.join(tmp, "C05.lean"),
-                                        "RkVerif.Gen.C05", core.REPO, inc, ["RKCOMMON_NO_SIMD"], "float",
-                                        struct_names.names(), tmpdir=tmp)
-    rep.coverage["translated_defs"] = sum(1 for m in meta if m["kind"] == "def")
-    rep.coverage["translated_wrappers"] = len(tr.signatures)
-    if errors:
-        return dict(kind="translator-unsupported", errors=errors,
-                    note="the current source uses a construct outside the translator's subset; the model cannot be regenerated")
-    changed = _write_if_changed(GEN_FILES["lean"], text)
-    l, c = C.emit_dispatch(tr, "RkVerif.Gen.C05", "RkVerif.Gen.C05")
-    _write_if_changed(GEN_FILES["dispatch"], l)
-    _write_if_changed(GEN_FILES["inc"], c)
-    rep.coverage["model_regenerated_differs_from_snapshot"] = bool(changed)
-    _sigs.update(tr.signatures)
-    _sigs["__fields__"] = dict(tr.struct_fields)
-    # coverage accounting: every function name defined in range.h / box.h is covered or explicitly out of scope
-    covered = {m["cxx"] for m in meta if m["kind"] == "def"}
-    missing = []
-    for hdr in ("rkcommon/math/range.h", "rkcommon/math/box.h"):
-        src = open(os.path.join(core.REPO, hdr)).read()
-        src = re.sub(r"//[^\n]*", "", src)
-        for m in re.finditer(r"\binline\s+[\w:<>,\s\*&]+?\b(operator\s*[^\s(]+|\w+)\s*\(", src):
-            nm = re.sub(r"\s+", "", m.group(1))
-            if nm not in covered and nm not in OUT_OF_SCOPE and not nm.startswith("operatorT") and not nm.startswith("operatorconst"):
-                missing.append(hdr + ":" + nm)
-    rep.coverage["uncovered_entities"] = missing
-    if missing:
-        return dict(kind="coverage-gap", missing=missing,
-                    note="functions declared in the anchored headers are neither translated nor listed as out of scope")
-    return None
+    from vlib import trprop
+    return trprop.regenerate(rep, "C05", "tr/c05_drv.cpp", ["RKCOMMON_NO_SIMD"],
+                             ["rkcommon/math/range.h", "rkcommon/math/box.h"], OUT_OF_SCOPE, _sigs)
 
 
 # --------------------------------------------------------------------------- generator
@@ -212,7 +180,7 @@ def gen_cases(rng, tier, h):
                 org = [l + rng.pick([0.25, 0.5, 0.75]) * (u - l) for l, u in zip(lo, up)]
                 org[k] = rng.pick([lo[k], up[k], lo[k] + 0.5 * (up[k] - lo[k]), up[k] + 0.5, lo[k] - 0.5])
                 d = [rng.pick([1.0, -1.0, 0.5, -2.0]) for _ in range(n)]
-                d[k] = 0.0
+                d[k] = rng.pick([0.0, 0.0, -0.0])      # either zero (-0.0 is what -vec3f(0,0,1) has in x and y)
                 tr = rng.pick([[0.0, INF], [0.0, 10.0], [-5.0, 5.0], [0.25, 1.0]])
                 byname = dict(org=org, dir=d, b=lo + up, tr=tr)
                 for pn, t in params:
@@ -230,7 +198,7 @@ def gen_cases(rng, tier, h):
                         zs = [k for k in range(len(v)) if rng.chance(0.5)]
                         if len(zs) == len(v):
                             zs = zs[1:]
-                        v = [0.0 if k in zs else x for k, x in enumerate(v)]
+                        v = [rng.pick([0.0, 0.0, -0.0]) if k in zs else x for k, x in enumerate(v)]
                 if nm.startswith("ray_") and pn == "tr":
                     v = sorted(abs(x) if abs(x) != INF else 1.0 for x in v)
                     if rng.chance(0.5):
